@@ -143,7 +143,8 @@ def install(B, LenV):
     @method
     def f_vars(self, I, o=MISSING):
         if isinstance(o, Obj):
-            return DictV([(k, v) for k, v in o.fields.items()])
+            from .ae import live_dict
+            return live_dict(o)
         if isinstance(o, ClassV):
             return ProxyV(DictV([(k, v) for k, v in o.dict.items()]))
         raise Unknown("vars()")
@@ -656,7 +657,7 @@ def install(B, LenV):
     @method
     def set_method(self, I, s, name, a, kw):
         def has(x, items=None):
-            return any(y is x or I.eq(y, x) for y in (s.items if items is None else items))
+            return any(y is x or I.heq(y, x) for y in (s.items if items is None else items))
 
         if name == "add":
             self.check_hashable(a[0])
@@ -665,7 +666,7 @@ def install(B, LenV):
             return None
         if name in ("remove", "discard"):
             for i, y in enumerate(s.items):
-                if y is a[0] or I.eq(y, a[0]):
+                if y is a[0] or I.heq(y, a[0]):
                     del s.items[i]
                     return None
             if name == "remove":
@@ -741,6 +742,25 @@ def install(B, LenV):
         if name == "format":
             if isinstance(s, str) and "{" not in s:
                 return s
+            if isinstance(s, str):
+                # the replacement fields must be supplied: a missing keyword is a KeyError, a missing position an IndexError
+                import string
+                try:
+                    fields = [f for _, f, _, _ in string.Formatter().parse(s) if f is not None]
+                except ValueError as e:
+                    raise Raised(self.mkexc("ValueError", str(e)))
+                auto = 0
+                for f in fields:
+                    head = f.split(".")[0].split("[")[0]
+                    if head == "":
+                        if auto >= len(a):
+                            raise Raised(self.mkexc("IndexError", "Replacement index out of range for positional args tuple"))
+                        auto += 1
+                    elif head.isdigit():
+                        if int(head) >= len(a):
+                            raise Raised(self.mkexc("IndexError", "Replacement index out of range for positional args tuple"))
+                    elif head not in kw:
+                        raise Raised(self.mkexc("KeyError", head))
             return mkstr([SAtom("StrFormat", s, Seq(list(a), "tuple"), DictV(list(kw.items())))])
         if name == "__add__":
             return mkstr([s, a[0]])
